@@ -4,8 +4,11 @@ Theorems (Props/C05.lean, all REQUIRED; every extraction entry must have its own
 entry) over the definitions regenerated from the current headers.  Residue (harness/corr/c05_residue.cpp): EVERY
 extracted function is also run on the real code at float and double (the two-type Vec x Matrix templates additionally
 at Vec<float> x Matrix<double> and Vec<double> x Matrix<float>) against a __float128 evaluation, one row per
-(function, element types) with its own constant and its own recorded maximum."""
-import os, re
+(function, element types) with its own constant (number of roundings on the longest path of the code as written) and its
+own recorded maximum, which must also stay within DRIFT x the calibrated clean-tree maximum (tools/pins/residue_c05.json;
+recalibrate by hand on a clean tree:  python3 tools/props/c05.py calibrate)."""
+import json, os, re, sys
+sys.path.insert(0, os.path.dirname(os.path.dirname(os.path.abspath(__file__))))          # `python3 tools/props/c05.py calibrate`
 import lib, troute
 
 IMPORTS = ["ImathVerif.Spec.MatSpec", "ImathVerif.Lemmas.C05", "ImathVerif.Gen.C05"]
@@ -46,23 +49,44 @@ for _v in ("V2", "V3", "V4"):
         RESIDUE_ROWS["%s.%s" % (_v, _f)] = _SAME
 for _f in ("V2.cross", "V2.crossOp", "V3.cross", "V3.crossOp", "V3.crossAssign", "V3.crossAssignSelf",
            "Quat.mul.r", "Quat.mul.v", "Quat.mulAssign", "Quat.mulAssignSelf", "Quat.euclideanInnerProduct",
-           "M33.outerProduct", "M44.outerProduct", "M33.minorOf", "M44.minorOf", "M33.fastMinor", "M44.fastMinor",
+           "M33.outerProduct", "M44.outerProduct", "M33.fastMinor", "M44.fastMinor",
            "M44.multiplyStatic", "M44.multiplyStatic3", "M44.multiplyStatic3Alias"):
     RESIDUE_ROWS[_f] = _SAME
+for _r in range(3):
+    for _c in range(3):
+        RESIDUE_ROWS["M33.minorOf_%d_%d" % (_r, _c)] = _SAME          # one row per (r, c): a generator that stops visiting one is noticed
+for _r in range(4):
+    for _c in range(4):
+        RESIDUE_ROWS["M44.minorOf_%d_%d" % (_r, _c)] = _SAME
 for _m in ("M22", "M33", "M44"):
     for _f in ("mul", "mulAssign", "mulAssignSelf", "transpose", "transposed", "trace", "determinant"):
         RESIDUE_ROWS["%s.%s" % (_m, _f)] = _SAME
 for _f in ("V2.mulM22", "V3.mulM33", "V4.mulM44", "V2.mulM33", "V3.mulM44", "M22.multDirMatrix", "M33.multDirMatrix", "M44.multDirMatrix"):
     RESIDUE_ROWS[_f] = _MIXED + _WIDE
+# w == 0 in the homogeneous divide: IEEE quotient on the lattice, non-finite elsewhere (the spellings are compared bitwise in their own rows)
+_WZERO = [t + ":w-zero" for t in _MIXED]
+RESIDUE_ROWS["V2.mulM33"] = RESIDUE_ROWS["V2.mulM33"] + _WZERO
+RESIDUE_ROWS["V3.mulM44"] = RESIDUE_ROWS["V3.mulM44"] + _WZERO
 for _f in ("V2.mulAssignM22", "V3.mulAssignM33", "V4.mulAssignM44", "V2.mulAssignM33", "V3.mulAssignM44", "M33.multVecMatrix", "M44.multVecMatrix"):
     RESIDUE_ROWS[_f] = _MIXED
+
+
+CALIB_FILE = os.path.join(lib.VERIF, "tools", "pins", "residue_c05.json")
+# Drift against the calibration (clean tree, seeds 1-5 at the thorough number of rounds).  The MEAN of err/bound of a row is stable to ~2 % from
+# seed to seed and does not depend on the number of rounds: it is the sensitive statistic (an extra rounding in M44.determinant moves it by
+# +40 %).  The MAXIMUM is heavy-tailed (quick-size maxima vary by 30 % between seeds), so it is only compared with the largest value ever
+# seen in the calibration runs.
+DRIFT = 1.25            # a bound row's maximum may exceed the calibrated maximum by this factor at most
+MEAN_DRIFT = 1.10       # its mean may exceed the calibrated mean by this factor (+0.002) at most
+CALIB_SEEDS, QUICK_N, CALIB_N = (1, 2, 3, 4, 5), 25000, 250000
+TV_DET_LEAVES = 16      # translator validation itself must reach every zero-skipping leaf of Matrix44::determinant
 
 
 def residue_family_of(entry):
     """the residue row(s) that run the real code of extraction entry `entry`"""
     if entry == "Quat.mul":
         return ["Quat.mul.r", "Quat.mul.v"]
-    m = re.match(r"(M33|M44)\.(minorOf|fastMinor)_", entry)
+    m = re.match(r"(M33|M44)\.(fastMinor)_", entry)
     if m:
         return ["%s.%s" % (m.group(1), m.group(2))]
     if entry.startswith("M44.multiplyStatic3Alias"):
@@ -70,40 +94,78 @@ def residue_family_of(entry):
     return [entry]
 
 
+def parse_residue(out):
+    m = re.search(r"RESIDUE evals=(?P<evals>\d+) lattice_exact=(?P<lattice>\d+) failures=(?P<failures>\d+) worst_frac=(?P<worst>\S+) "
+                  r"worst_frac_extreme=(?P<worstx>\S+) w_zero_cases=(?P<wzero>\d+) w_zero_lattice_checked=(?P<wzlat>\d+) "
+                  r"w_illconditioned_skipped=(?P<wcond>\d+) extreme_calls_underflow=(?P<xlo>\d+) extreme_calls_overflow=(?P<xhi>\d+) "
+                  r"fastminor33_tuples=(?P<fm33>\d+) fastminor44_tuples=(?P<fm44>\d+) affine_hits=(?P<af>\d+),(?P<ad>\d+) "
+                  r"det44_zero_pattern_hits_float=(?P<hf>\S+) det44_zero_pattern_hits_double=(?P<hd>\S+)", out)
+    fams = {}
+    for fm in re.finditer(r"FAMILY (\S+) kind=(\S+) c=(\S+) evals=(\d+) lattice=(\d+) extreme=(\d+) skipped=(\d+) fails=(\d+) "
+                          r"worst_frac=(\S+) worst_frac_extreme=(\S+) mean_frac=(\S+) mean_frac_extreme=(\S+)", out):
+        fams[fm.group(1)] = dict(kind=fm.group(2), c=float(fm.group(3)), evals=int(fm.group(4)), lattice=int(fm.group(5)), extreme=int(fm.group(6)),
+                                 skipped=int(fm.group(7)), fails=int(fm.group(8)), worst_frac=float(fm.group(9)), worst_frac_extreme=float(fm.group(10)),
+                                 mean_frac=float(fm.group(11)), mean_frac_extreme=float(fm.group(12)))
+    return m, fams
+
+
 def residue(chk, binary, n, index):
     rc, out = lib.sh([binary, str(chk.seed), str(n)], timeout=1800)
-    m = re.search(r"RESIDUE evals=(\d+) lattice_exact=(\d+) failures=(\d+) worst_frac=([\d.]+) w_zero_skipped=(\d+) "
-                  r"w_illconditioned_skipped=(\d+) fastminor33_tuples=(\d+) fastminor44_tuples=(\d+) affine_hits=(\d+),(\d+) "
-                  r"det44_zero_pattern_hits_float=(\S+) det44_zero_pattern_hits_double=(\S+)", out)
-    fams = {}
-    for fm in re.finditer(r"FAMILY (\S+) kind=(\S+) c=(\S+) evals=(\d+) lattice=(\d+) skipped=(\d+) fails=(\d+) worst_frac=(\S+)", out):
-        fams[fm.group(1)] = dict(kind=fm.group(2), c=float(fm.group(3)), evals=int(fm.group(4)), lattice=int(fm.group(5)),
-                                 skipped=int(fm.group(6)), fails=int(fm.group(7)), worst_frac=float(fm.group(8)))
+    m, fams = parse_residue(out)
     ran = rc in (0, 1) and m is not None and bool(fams)
     chk.oblige("residue: harness ran", "residue", ran, None if ran else out[-400:])
     if not ran:
         chk.fail("residue", "residue:run", "residue harness failed to run", {"output": out[-2000:]}, False)
         return
-    chk.count(int(m.group(1)), int(m.group(1)))
-    # one obligation per function: all its element-type rows present, evaluated, inside their own bound / exact / bitwise equal
+    chk.count(int(m.group("evals")), int(m.group("evals")))
+    try:
+        calib = json.load(open(CALIB_FILE))
+    except (OSError, ValueError):
+        calib = {}
+    # one obligation per function: all its element-type rows present, evaluated in every input class, inside their own bound / exact / bitwise equal
     summary = {}
     for fn, types in sorted(RESIDUE_ROWS.items()):
         rows = {t: fams.get(fn + ":" + t) for t in types}
         missing = [t for t, r in rows.items() if not r or r["evals"] == 0]
         lat_missing = [t for t, r in rows.items() if r and r["lattice"] == 0]
-        bad = [t for t, r in rows.items() if r and (r["fails"] or (r["kind"] == "bound" and not r["worst_frac"] <= 1.0))]
+        # the extreme class must reach every row except the w == 0 ones (an exactly cancelling w does not occur there)
+        x_missing = [t for t, r in rows.items() if r and r["extreme"] == 0 and not t.endswith(":w-zero")]
+        bad = [t for t, r in rows.items() if r and (r["fails"] or (r["kind"] == "bound" and not max(r["worst_frac"], r["worst_frac_extreme"]) <= 1.0))]
         kind = next((r["kind"] for r in rows.values() if r), "?")
         c = next((r["c"] for r in rows.values() if r), 0)
-        what = {"bound": "|impl - exact| <= %g*u*sum|terms| (+ one narrowing rounding when S is narrower), lattice exact" % c,
+        what = {"bound": "|impl - exact| <= %g*u*sum|terms| + underflow term (+ one narrowing rounding when S is narrower), lattice exact" % c,
                 "exact": "equals the exactly computed result", "bitwise": "bitwise equal to the reference spelling / instantiation"}.get(kind, kind)
-        ok = not missing and not bad and not lat_missing
+        ok = not missing and not bad and not lat_missing and not x_missing
         chk.oblige("residue:%s: %s [%s]" % (fn, what, ", ".join(types)), "residue", ok,
-                   None if ok else {"rows missing": missing, "rows without lattice cases": lat_missing, "rows failing": bad})
-        if missing or lat_missing:
-            chk.fail("residue:" + fn, "residue:%s:row-missing" % fn, "the residue harness no longer measures %s at %s" % (fn, missing or lat_missing),
-                     {"rows": rows}, False)
+                   None if ok else {"rows missing": missing, "rows without lattice cases": lat_missing, "rows without extreme-class cases": x_missing,
+                                    "rows failing": bad})
+        if missing or lat_missing or x_missing:
+            chk.fail("residue:" + fn, "residue:%s:row-missing" % fn,
+                     "the residue harness no longer measures %s at %s in every input class" % (fn, missing or lat_missing or x_missing), {"rows": rows}, False)
+        # drift: the recorded maximum and mean of a bound row against the calibrated clean-tree values (all in fractions of the row's own bound)
+        bound_rows = {t: r for t, r in rows.items() if r and r["kind"] == "bound"}
+        if bound_rows:
+            drift = {}
+            for t, r in bound_rows.items():
+                cal = calib.get(fn + ":" + t)
+                if not cal or cal.get("c") != r["c"]:
+                    drift[t] = "row not calibrated for c=%g (run: python3 tools/props/c05.py calibrate)" % r["c"]
+                    continue
+                for k in ("worst_frac", "worst_frac_extreme"):
+                    if r[k] > cal[k] * DRIFT + 1e-9:
+                        drift[t + ":" + k] = {"measured": r[k], "calibrated": cal[k], "allowed": round(cal[k] * DRIFT, 6)}
+                for k in ("mean_frac", "mean_frac_extreme"):
+                    if r[k] > cal[k] * MEAN_DRIFT + 0.002:
+                        drift[t + ":" + k] = {"measured": r[k], "calibrated": cal[k], "allowed": round(cal[k] * MEAN_DRIFT + 0.002, 6)}
+            chk.oblige("residue:drift:%s: maxima <= %g x and means <= %g x (+0.002) the calibrated clean-tree values (seeds 1-5) [%s]"
+                       % (fn, DRIFT, MEAN_DRIFT, ", ".join(bound_rows)), "residue", not drift, drift or None)
+            for t, d in list(drift.items())[:4]:
+                chk.fail("residue:drift:" + fn, "residue:drift:%s:%s" % (fn, t), "rounding error of %s at %s moved above its calibrated value: %s" % (fn, t, d),
+                         {"row": fn + ":" + t, "detail": d, "replay_cmd": ".build/bin/c05_residue %d %d" % (chk.seed, n)}, False)
         summary[fn] = {t: ({"evals": r["evals"], "kind": r["kind"], "c": r["c"], "worst_fraction_of_own_bound": r["worst_frac"],
-                            "worst_in_units_of_u_sum_abs_terms(same-type rows)": round(r["worst_frac"] * r["c"], 3)}
+                            "worst_fraction_of_own_bound_extreme_class": r["worst_frac_extreme"],
+                            "mean_fraction_of_own_bound": r["mean_frac"], "mean_fraction_of_own_bound_extreme_class": r["mean_frac_extreme"],
+                            "calibrated": {k: v for k, v in (calib.get(fn + ":" + t) or {}).items() if k != "c"}}
                            if r and r["kind"] == "bound" else ({"evals": r["evals"], "kind": r["kind"]} if r else None)) for t, r in rows.items()}
     extra_rows = sorted(k for k in fams if k.split(":")[0] not in RESIDUE_ROWS)
     chk.oblige("residue: no unexpected rows", "residue", not extra_rows, extra_rows or None)
@@ -112,31 +174,43 @@ def residue(chk, binary, n, index):
     chk.oblige("residue: every extraction entry (%d) has a residue row on the real code" % len(index), "residue", not unmeasured, unmeasured or None)
     if unmeasured:
         chk.fail("residue:coverage", "residue:unmeasured:" + unmeasured[0], "extraction entries without a residue row: %s" % unmeasured, {}, False)
-    # reach: zero-skipping branches of Matrix44::determinant, fastMinor index tuples, affine pattern
-    hf = [int(x) for x in m.group(11).strip(",").split(",")]
-    hd = [int(x) for x in m.group(12).strip(",").split(",")]
-    okp = len(hf) == 16 and len(hd) == 16 and all(x > 0 for x in hf + hd)
-    chk.oblige("residue: all 16 zero-patterns of Matrix44::determinant's last column hit (float and double)", "reach", okp,
+    # reach: zero-skipping branches of Matrix44::determinant, fastMinor index tuples, affine pattern, both extreme bands, w == 0
+    hf = [int(x) for x in m.group("hf").strip(",").split(",")]
+    hd = [int(x) for x in m.group("hd").strip(",").split(",")]
+    floor = max(1, n // (5 * 16 * 2))          # each pattern is forced in n/5/16 rounds
+    okp = len(hf) == 16 and len(hd) == 16 and all(x >= floor for x in hf + hd)
+    chk.oblige("residue: each of the 16 zero-patterns of Matrix44::determinant's last column hit >= %d times (float and double)" % floor, "reach", okp,
                {"float": hf, "double": hd})
     if not okp:
-        chk.fail("residue:reach", "residue:det44-zero-patterns", "a zero-skipping path of Matrix44::determinant was never taken", {"float": hf, "double": hd}, False)
-    oka = int(m.group(9)) > 0 and int(m.group(10)) > 0
-    chk.oblige("residue: affine last column (0,0,0,1) forced (counted separately)", "reach", oka, {"float": int(m.group(9)), "double": int(m.group(10))})
-    okt = (int(m.group(7)), int(m.group(8))) == (81, 4096)
+        chk.fail("residue:reach", "residue:det44-zero-patterns", "a zero-skipping path of Matrix44::determinant was not taken often enough", {"float": hf, "double": hd}, False)
+    oka = int(m.group("af")) >= floor and int(m.group("ad")) >= floor
+    chk.oblige("residue: affine last column (0,0,0,1) forced >= %d times (counted separately)" % floor, "reach", oka,
+               {"float": int(m.group("af")), "double": int(m.group("ad"))})
+    okt = (int(m.group("fm33")), int(m.group("fm44"))) == (81, 4096)
     chk.oblige("residue: all 81 Matrix33 / 4096 Matrix44 fastMinor index tuples run (repeated and descending included)", "reach", okt,
-               {"M33": int(m.group(7)), "M44": int(m.group(8))})
+               {"M33": int(m.group("fm33")), "M44": int(m.group("fm44"))})
     if not okt:
-        chk.fail("residue:reach", "residue:fastMinor-tuples", "not every fastMinor index tuple was run", {"M33": m.group(7), "M44": m.group(8)}, False)
-    chk.residues["C05"] = {"evaluations": int(m.group(1)), "lattice_cases_required_exact": int(m.group(2)),
+        chk.fail("residue:reach", "residue:fastMinor-tuples", "not every fastMinor index tuple was run", {"M33": m.group("fm33"), "M44": m.group("fm44")}, False)
+    okx = int(m.group("xlo")) >= n // 5 and int(m.group("xhi")) >= n // 5
+    chk.oblige("residue: extreme class: both the underflow band and the near-overflow band generated (>= %d calls each)" % (n // 5), "reach", okx,
+               {"underflow": int(m.group("xlo")), "near-overflow": int(m.group("xhi"))})
+    okw = int(m.group("wzlat")) >= 100
+    chk.oblige("residue: w == 0 of the homogeneous divide checked on the lattice (IEEE quotient) >= 100 times", "reach", okw, int(m.group("wzlat")))
+    chk.residues["C05"] = {"evaluations": int(m.group("evals")), "lattice_cases_required_exact": int(m.group("lattice")),
                            "oracle": "__float128 (113-bit) evaluation of the textbook sums in C++, NOT proved",
-                           "bound": "per row: c*u*sum|terms| with c = terms+2 (sums), 4 (2x2 minors, cross), 3N+2 (NxN determinants, 3x3 minors), "
-                                    "(terms+2)*4/3 in units u*(sum|x-terms| + |x/w|*sum|w-terms|)/|w| + u|x/w| for the homogeneous divides; "
+                           "bound": "per row: c*u*sum|terms| + (products that can underflow)*denorm_min/2, c = number of roundings on the longest path of the "
+                                    "code as written: n (sums of n products: dot, length2, M*M, Vec x Matrix, multDirMatrix), n-1 (trace), 2 (cross, 2x2 "
+                                    "determinant / minors), 5 (3x3 determinant / minors / fastMinor), 9 (Matrix44::determinant), 4 / 3 (Quat real / vector part); "
+                                    "homogeneous divides: n*64/63 in units u*(sum|x-terms| + |x/w|*sum|w-terms|)/|w| + u|x/w|; "
                                     "+ u_S*|exact| when the result is narrowed to S (mixed rows: fraction ~1 is the half-ulp of that rounding)",
-                           "worst_fraction_of_own_bound_over_all_rows": float(m.group(4)),
-                           "homogeneous divide: cases skipped because w == 0 (outside the clause)": int(m.group(5)),
-                           "homogeneous divide: cases skipped because w lost its leading digits": int(m.group(6)),
+                           "drift": "each bound row's maximum also <= %g x and its mean <= %g x (+0.002) the calibrated clean-tree value (%s)"
+                                    % (DRIFT, MEAN_DRIFT, os.path.relpath(CALIB_FILE, lib.VERIF)),
+                           "worst_fraction_of_own_bound_over_all_rows": float(m.group("worst")),
+                           "worst_fraction_of_own_bound_over_all_rows_extreme_class": float(m.group("worstx")),
+                           "homogeneous divide: calls with w == 0 (spellings compared bitwise; IEEE quotient required on the lattice)": int(m.group("wzero")),
+                           "homogeneous divide: cases skipped because w lost its leading digits": int(m.group("wcond")),
                            "Matrix44::determinant zero-column patterns hit (index = bitmask of zero entries in column 3)": {"float": hf, "double": hd},
-                           "affine pattern forced": {"float": int(m.group(9)), "double": int(m.group(10))},
+                           "affine pattern forced": {"float": int(m.group("af")), "double": int(m.group("ad"))},
                            "rows": summary}
     seen = set()
     for l in [l for l in out.split("\n") if l.startswith("RESIDUE-FAIL")]:
@@ -146,6 +220,46 @@ def residue(chk, binary, n, index):
         seen.add(what)
         chk.fail("residue:" + what.split(":")[0], "residue:" + what, "rounding residue / lattice exactness / spelling identity violated: " + l[:400],
                  {"line": l, "replay_cmd": ".build/bin/c05_residue %d %d" % (chk.seed, n)}, True)
+
+
+def pool_minors(cal):
+    """the 9 / 16 minorOf (r, c) rows of one matrix type run the same body on 1/9, 1/16 of the inputs: calibrate their MAXIMA with the common maximum"""
+    for pre in ("M33.minorOf_", "M44.minorOf_"):
+        for ty in _SAME:
+            ks = [k for k in cal if k.startswith(pre) and k.endswith(":" + ty)]
+            for f in ("worst_frac", "worst_frac_extreme"):
+                mx = max(cal[k][f] for k in ks)
+                for k in ks:
+                    cal[k][f] = mx
+
+
+def calibrate():
+    """by hand, on a clean tree: per bound row the maximum and the mean of err / bound over CALIB_SEEDS at the thorough number of rounds
+    ->  tools/pins/residue_c05.json"""
+    from concurrent.futures import ThreadPoolExecutor
+    ok, binary, o = lib.cxx_build("c05_residue", ["corr/c05_residue.cpp"])
+    assert ok, o
+    jobs = [(sd, CALIB_N) for sd in CALIB_SEEDS]
+    with ThreadPoolExecutor(len(jobs)) as ex:
+        outs = list(ex.map(lambda j: lib.sh([binary, str(j[0]), str(j[1])], timeout=7200), jobs))
+    cal = {}
+    for (sd, nn), (rc, out) in zip(jobs, outs):
+        m, fams = parse_residue(out)
+        assert rc == 0 and m, out[-1000:]
+        for k, r in fams.items():
+            if r["kind"] != "bound":
+                continue
+            c = cal.setdefault(k, {"c": r["c"], "worst_frac": 0.0, "worst_frac_extreme": 0.0, "mean_frac": [], "mean_frac_extreme": []})
+            for f in ("worst_frac", "worst_frac_extreme"):
+                c[f] = max(c[f], r[f])
+            c["mean_frac"].append(r["mean_frac"])
+            c["mean_frac_extreme"].append(r["mean_frac_extreme"])
+    for c in cal.values():
+        for f in ("mean_frac", "mean_frac_extreme"):
+            c[f] = round(sum(c[f]) / len(c[f]), 6)
+    pool_minors(cal)
+    json.dump(cal, open(CALIB_FILE, "w"), indent=0, sort_keys=True)
+    print("calibrated", len(cal), "bound rows ->", CALIB_FILE)
 
 
 def entry_theorems(chk, index):
@@ -175,20 +289,32 @@ def run(chk):
                    "translator harness/sym, validated each run by TV (bitwise at float and double, S = T instantiations only)",
                    "__float128 evaluation as the oracle of the measured rounding residue; g++ -O1 -ffp-contract=off and the CPU"]
     chk.assumptions = ["rounding: NOT proved; measured for every extracted function against a 113-bit evaluation with a per-row bound "
-                       "proportional to u*sum|products| (partial)",
+                       "c*u*sum|products| + underflow term, c = roundings on the longest path of the code as written (partial)",
+                       "drift obligations compare each row's maximum with a calibration taken by hand on a clean tree (tools/pins/residue_c05.json)",
                        "the two-type templates Vec<S> x Matrix<T> are extracted at S = T only; S != T (float x double, double x float) is covered "
                        "by measurement: bound rows + bitwise equality with the S = T instantiation at the wider type rounded once per component",
-                       "homogeneous divide: inputs with w == 0 are outside the clause and are skipped (counted)"]
+                       "homogeneous divide with w == 0: only IEEE behaviour is required (lattice: the exact +-inf / NaN; elsewhere non-finite) and the "
+                       "three spellings must agree bitwise; cases where w lost its leading digits are skipped (counted)",
+                       "cofactor-expansion theorems are Gen-to-Gen identities (tied to Mathlib through minorOf_r_c and determinant)"]
     chk.rule = ("theorems: all operands over any commutative ring/field. residue: integer lattice [-3,3] (exact equality; correctly rounded quotient "
-                "for the dividing forms), well-scaled (half of the 4x4 forced affine), sparse (every one of the 16 zero patterns of Matrix44's last "
-                "column forced in turn: hit counts are an obligation), graded magnitudes 2^-10..2^10; float, double and both mixed pairs; all 81/4096 "
-                "fastMinor index tuples cycled; every (r,c) of minorOf")
+                "for the dividing forms, IEEE quotient when w == 0), well-scaled (half of the 4x4 determinant inputs forced affine), sparse (every one "
+                "of the 16 zero patterns of Matrix44's last column forced in turn; w == 0 forced in 1/8 of the Vec x Matrix calls), graded magnitudes "
+                "2^-10..2^10, extreme (one band per call: top-degree products around the subnormal boundary, or within 2^-2deg..2^-6deg of overflow); "
+                "float, double and both mixed pairs; all 81/4096 fastMinor index tuples cycled; every (r,c) of minorOf has its own row; TV reaches "
+                "16/16 leaves of M44.determinant")
     bins = troute.build_extractors(chk, [dict(name="sym_c05", source="sym/sym_c05.cpp"),
                                          dict(name="c05_residue", source="corr/c05_residue.cpp")])
     index = []
     if bins.get("sym_c05"):
         index, changed = troute.regenerate(chk, bins["sym_c05"], "c05")
         troute.tv(chk, bins["sym_c05"], "c05", 400 if chk.thorough else 64)
+        ph = getattr(chk, "tv_paths", {}).get("c05", {}).get("M44.determinant")
+        okl = bool(ph) and ph[0] == ph[1] == TV_DET_LEAVES
+        chk.oblige("tv:c05: M44.determinant reaches %d/%d leaves (small-integer lattice inputs with zeros, Opts::lattice)" % (TV_DET_LEAVES, TV_DET_LEAVES),
+                   "translation-validation", okl, ph)
+        if not okl:
+            chk.fail("tv:c05", "tv-coverage:M44.determinant", "translator validation does not reach every zero-skipping leaf of Matrix44::determinant",
+                     {"leaves_hit_total": ph}, False)
         troute.lean_tv(chk, bins["sym_c05"], "c05", index, n=8 if chk.thorough else 3)
 
         def search(name):
@@ -198,6 +324,10 @@ def run(chk):
         for d in index[:5]:
             chk.sample({"entry": d["name"], "paths": d.get("paths")})
     if bins.get("c05_residue"):
-        residue(chk, bins["c05_residue"], 200000 if chk.thorough else 20000, index)
+        residue(chk, bins["c05_residue"], CALIB_N if chk.thorough else QUICK_N, index)
     if chk.thorough:
         chk.leanchecker(MODULE)
+
+
+if __name__ == "__main__" and sys.argv[1:] == ["calibrate"]:
+    calibrate()
